@@ -235,7 +235,7 @@ class C08(Check):
                  S.BATCHGATE(K), S.BATCH_DIRECT(K), S.GATE(K), S.GATE_NONE(K), S.GRPBATCH(K), S.GRP_BLOCKED(K),
                  S.FANFAIL(2), S.GRPIN(K), S.REGRADE(K), S.FANGATE(2), S.REENT(K), S.REENT(K, src_cycle=1), S.GRP2(K, horizon=hg),
                  S.NEST_MID(K, horizon=hg), S.NEST_OUT(K, horizon=hg), S.BLOCK(K), S.BATCH(K), S.REWIRE(K), S.REWIRE2(K + 1), S.GATEGRP(K),
-                 S.GRPPASS(K), S.NEST_PASS(K), S.FANTOGGLE(K), S.FANTOGGLE2(K), S.FANOUT(K + 1), S.BLOCK0(K), S.FANFLOW(K)]
+                 S.GRPPASS(K), S.NEST_PASS(K), S.FANTOGGLE(K), S.FANTOGGLE2(K), S.FANOUT(K + 1), S.BLOCK0(K), S.FANFLOW(K), S.FANRES(K)]
         return _line_jobs(specs, ['route'], tier) + _line_jobs([S.NESTBATCH(K)], ['route', 'nesthistory'], tier) + topo_jobs(['route'], tier)
 
 
@@ -255,7 +255,7 @@ class C11(Check):
         specs = [S.RES(K), S.RES(K, r=2, q=0), S.RES(K + 1, horizon=4), S.RES_SER(K), S.RES_SER(K + 1, horizon=4),
                  S.RES2(K, horizon=5 if K == 1 else 4), S.RES3L(K),
                  S.GRP2(K, horizon=4, resources=True), S.GRPPAR(K, horizon=4, resources=True), S.RES_MAINT(K + 1),
-                 S.RES_WINDOW(K + 1), S.RES_FRAC(K), S.FLOATNOISE(K)]
+                 S.RES_WINDOW(K + 1), S.RES_FRAC(K), S.FLOATNOISE(K), S.RES_RETRY(K)]
         return _line_jobs(specs, ['resources'], tier)
 
 
@@ -275,7 +275,7 @@ class C13(Check):
         K = 2 if tier == 'quick' else 3
         specs = [S.MAINT(K, n=1, probes=3), S.MAINT(K - 1, probes=3), S.FAN(K - 1), S.BLOCKED_OUT(K),
                  S.MAINT_SCRIPT(K, probes=3), S.MAINT2_SCRIPT(K - 1), S.VALUE0(K - 1), S.BLOCKED_OUT_SCRIPT(K - 1),
-                 S.MAINT3_SCRIPT(K - 1), S.INSTANT(K), S.MAINT4_SCRIPT(K - 1)]
+                 S.MAINT3_SCRIPT(K - 1), S.INSTANT(K), S.MAINT4_SCRIPT(K - 1), S.PASS_WINDOW(K)]
         # the cycle monitor rides along: a part whose processing time is stretched or cut by an outage shows up there
         jobs = _line_jobs(specs, ['shutdown', 'wakeup', 'cycle'], tier)
         # a machine created while the line is running: its uptime / utilisation count from its creation
